@@ -49,7 +49,10 @@ class MethodDescriptor(metaclass=ABCMeta):
 
     def __get__(self, instance: Any, spec_cls: Type = None) -> Callable:
         if self.dissolve:
-            setattr(spec_cls, self.name, self.method)
+            # Dissolve onto the class this descriptor is attached to: the lookup
+            # may come through a subclass (or `super()`), whose own namespace
+            # (and own definition of this name) must not be touched.
+            setattr(self.spec_cls or spec_cls, self.name, self.method)
         if instance is not None:
             return types.MethodType(self.method, instance)
         return self.method
